@@ -11,6 +11,7 @@ LEDGER_PRELUDE = (
     "impl Drop for L { fn drop(&mut self) { let id = self.id; LEDGER.with(|l| { let mut l = l.borrow_mut(); let i = id as usize; if i >= 1 && i <= l.len() { l[i - 1] += 1; } }); } } "
     "fn reset() { LEDGER.with(|l| l.borrow_mut().clear()); } "
     "fn dropped_now() -> Vec<usize> { LEDGER.with(|l| l.borrow().iter().enumerate().filter(|x| *x.1 == 1).map(|x| x.0 + 1).collect()) } "
+    "fn counts() -> Vec<u32> { LEDGER.with(|l| l.borrow().clone()) } "
     "fn all_once() -> bool { LEDGER.with(|l| l.borrow().iter().all(|x| *x == 1)) } "
 )
 
